@@ -1367,6 +1367,9 @@ def set_instantaneous_absorption(model: Model):
                 statements=statements.remove_symbol_definitions(symbols, statements.ode_system)
             )
             model = remove_unused_parameters_and_rvs(model)
+            # NOTE: The depot is gone: continue with the updated system
+            statements = model.statements
+            cs = get_and_check_odes(model)
         if has_zero_order_absorption(model):
             dose_comp = cs.dosing_compartments[0]
             old_symbols = dose_comp.free_symbols
